@@ -181,9 +181,25 @@ def search(ctx, budget):
         if isinstance(F, str) or not np.array_equal(F, B):
             ctx.fail("C20:frontend", f"quasirandom({k + 1},{d},seed={s}) != the {k + 1} points of seeds {s}..{s + k}"
                      + (f" ({F})" if isinstance(F, str) else f" (shape {np.shape(F)})"), {"kind": "window", "s": s, "k": k, "d": d})
+    # (2b) the front end's defaults are constants (method 'sobol', seed 1), whatever was asked for before — and seed 0 is a seed
+    d = rng.choice([2, 3, 5])
+    ctx.case({"frontend-defaults": d})
+    try:
+        quasirandom(4, d, method="kgf", seed=1000)
+        quasirandom(d, method="kgf", seed=77)
+        if not (np.array_equal(quasirandom(6, d), quasirandom_sobol_batch(1, 6, d)) and np.array_equal(quasirandom(d), quasirandom_sobol(1, d))
+                and np.array_equal(quasirandom(6, d, seed=40), quasirandom_sobol_batch(40, 45, d))
+                and np.array_equal(quasirandom(6, d, method="kgf"), quasirandom_kgf_batch(1, 6, d))):
+            ctx.fail("C20:frontend-defaults", f"quasirandom(6, {d}) / quasirandom({d}) without method= and seed= are not the Sobol points of seeds 1.. after calls "
+                     "that named method='kgf' and other seeds", {"kind": "defaults", "d": d})
+        z1, z2 = quasirandom(d, method="kgf", seed=0), quasirandom(5, d, method="kgf", seed=0)
+        if not (np.array_equal(z1, quasirandom_kgf(0, d)) and np.array_equal(z2, quasirandom_kgf_batch(0, 4, d)) and np.array_equal(z2[1], quasirandom_kgf(1, d))):
+            ctx.fail("C20:frontend-kgf", f"quasirandom(..., method='kgf', seed=0) is not the Korobov point(s) of seed 0.. in dimension {d}", {"kind": "kgf0", "d": d})
+    except BaseException as ex:  # noqa
+        ctx.fail("C20:frontend-defaults", f"front-end default/seed-0 calls raised {type(ex).__name__}: {ex}", {"kind": "defaults", "d": d})
     # (3) Korobov
-    for _ in range(150 if not full else 3000):
-        s = rng.randint(1, 10**6)
+    for ik in range(150 if not full else 3000):
+        s = rng.randint(1, 10**6) if ik % 10 else rng.randint(0, 3)
         k = rng.choice([rng.randint(0, 64), rng.randint(0, 64), 255, 256, 128])     # up to the edge of the stated range (k <= 256)
         d = rng.randint(1, 64)
         ctx.case({"kgf": [s, s + k, d]})
